@@ -96,6 +96,20 @@ func GenRefGraph(t *rapid.T, label string) *GraphCase {
 			}
 			return inner
 		}
+		if rapid.Bool().Draw(t, l+"ObjectRuleSet") {
+			// an object alternative written as a rule set of an or: its additionalProperties names a type
+			// (every object it admits may be empty: the edge is an optional one)
+			ap := TokRule("additionalProperties", `"`+pick(l+"A")+`"`)
+			set := []ref.SRule{StrRule("type", "object"), ap}
+			if rapid.Bool().Draw(t, l+"ObjectRuleSetOrder") {
+				set[0], set[1] = set[1], set[0]
+			}
+			items := []ref.OrItem{{Rules: set}, {Name: "string"}}
+			if rapid.Bool().Draw(t, l+"ObjectRuleSetPos") {
+				items[0], items[1] = items[1], items[0]
+			}
+			return &ref.SNode{Kind: ref.SLit, Lit: ref.KString, Tok: `"s"`, Str: "s", Rules: []ref.SRule{{Name: "or", ValKind: ref.RVOr, Or: items}}}
+		}
 		return &ref.SNode{Kind: ref.SLit, Lit: ref.KString, Tok: `"s"`, Str: "s"}
 	}
 	keyTypes := 0
